@@ -276,6 +276,22 @@ def run(ctx):
                 ctx.case((repr(table), "raw", rawp))
         if t < 2:
             ctx.sample("nested-mount", {"table": table, "root": root, "path": path, "model": model_walk(table, root, path)})
+    # ---- one mount table / host table that lives long: well over a thousand lookups, most of them for the general prefix
+    if ctx.shard == 0:
+        table = [("/api/v2", None), ("/api", None), ("/a/b", None), ("/a", None), ("", None)]
+        apps = build_mount_apps(table)
+        for i in range(1600):
+            path = ("/api/x%d" % i) if i % 8 else rng.choice(["/api/v2/y", "/a/b/c", "/api/v2", "/a/b", "/other", "/api"])
+            run_mount(ctx, table, "", path, apps)
+            ctx.mon("long-lived-tables")
+        patterns = [r"api\.example\.com", r".*\.example\.com", r"h\d+\.test", r".*"]
+        happs = build_host_apps(patterns)
+        for i in range(1400):
+            run_hosts(ctx, patterns, f"h{i}.test" if i % 3 else rng.choice(["api.example.com", "x.example.com", "other"]), happs)
+            ctx.mon("long-lived-tables")
+        ctx.case(("long-lived",))
+    else:
+        ctx.mon("long-lived-tables", 0)
     ctx.extra["exhaustive_path_list"] = len(PATHS)
     for t in range(ctx.scale(1500, 40_000)):
         patterns = rng.sample(HOST_PATTERNS, rng.randrange(1, 5))
